@@ -498,3 +498,84 @@ def c20(ctx):
            "self-composition in TLC, with the early-exit comparison and the secret-indexed lookup refuted as controls",
            ["valgrind's instruction-level emulation of this CPU is the observation: micro-architectural timing is out of scope", "crypto/sha512 and the Go runtime are inside the traced window and are required to be "
             "secret-independent too (they are, on this toolchain)", "sampled secrets: all-zero, all-ones and seeded random ones"])
+
+
+# ---------------------------------------------------------------- C08: all configurations observationally identical
+
+@check("C08")
+def c08(ctx):
+    import zlib
+    model_check(ctx, "MCRecode.tla", "MCRecode.cfg")
+    cases = gen_cases(ctx, "VerifyCases", "verify_cases.ndjson")
+    configs = list(vlib.CONFIGS)
+    nsh = 6
+    shards = [[] for _ in range(nsh)]
+    n = 0
+    for cfgname in configs:
+        drv = build_driver(ctx, cfgname)
+        trace = os.path.join(ctx.work, "transcript_%s.ndjson" % cfgname)
+        out = run_driver(ctx, drv, "transcript", trace, cases=cases, config=cfgname)
+        ctx.log("driver[%s]:" % cfgname, out.strip())
+        for ln in open(trace):
+            ev = json.loads(ln)
+            if ev.get("op") == "note":
+                shards[0].append(ev)
+                continue
+            n += 1
+            ev["id"] = n
+            shards[zlib.crc32(ev["key"].encode()) % nsh].append(ev)   # routing only: all observations of one input meet in one shard
+    files = []
+    for i, evs in enumerate(shards):
+        fn = os.path.join(ctx.work, "configs.ndjson.%d" % i)
+        with open(fn, "w") as f:
+            for ev in evs:
+                f.write(json.dumps(ev) + "\n")
+        files.append(fn)
+    mism = validate_trace(ctx, "TraceConfigs.tla", "TraceConfigs.cfg", "configs", presharded=files, per_shard_workers=1,
+                          classify=lambda ev: "%s|%s" % (ev["cfg"], ev["key"].split("/")[0]))
+    report_mismatches(ctx, mism)
+    # every configuration against the specification itself (not only against each other): the numeric layers
+    num_family(ctx, configs if ctx.thorough else ["noasm_appengine", "386"])
+    finish(ctx, "the same seed-determined inputs (keys, signatures of 5 variant/context pairs, verdicts on a slice of the TLC-generated verification matrix incl. torsion / non-canonical / boundary cases as single calls and "
+           "batch members, multi-chunk batches with bad entries, X25519 on nibble patterns and random scalars/points, key conversions, canonical outputs of the scalar / field / fixed-base layers, the complete selector "
+           "table) under default, noasm, force32bit, noasm+appengine, force32bit+appengine and GOARCH=386; TraceConfigs.tla requires equal observations for equal inputs; "
+           "additionally each configuration's numeric trace is validated against TraceNum.tla", ASSUME_COMMON)
+
+
+# ---------------------------------------------------------------- C15: concurrency and history independence
+
+@check("C15")
+def c15(ctx):
+    import subprocess
+    model_check(ctx, "Conc.tla", "Conc_ok.cfg")
+    ok, _ = model_check(ctx, "Conc.tla", "Conc_neg.cfg", expect_ok=False)     # a shared scratch heap must be refuted
+    if ok:
+        raise Infra("model control failed: Conc accepts a shared scratch heap")
+    cases = gen_cases(ctx, "ConcCases", "conc_cases.ndjson")
+    drv = build_driver(ctx, "default", race=True)
+    trace = os.path.join(ctx.work, "conc.ndjson")
+    cmd = [drv, "-prop", "C15", "-tier", ctx.tier, "-seed", str(ctx.seed), "-out", trace, "-cases", cases, "conc"]
+    env = dict(os.environ)
+    env["GORACE"] = "halt_on_error=0 exitcode=66 log_path=" + os.path.join(ctx.work, "race_report")
+    p = subprocess.run(cmd, cwd=ctx.work, env=env, stdout=subprocess.PIPE, stderr=subprocess.STDOUT, universal_newlines=True, timeout=3000)
+    import glob
+    reports = glob.glob(os.path.join(ctx.work, "race_report*"))
+    races = 0
+    for rp in reports:
+        txt = open(rp).read()
+        races += txt.count("WARNING: DATA RACE")
+    if p.returncode not in (0, 66):
+        raise Infra("conc driver failed rc=%d:\n%s" % (p.returncode, p.stdout[-3000:]))
+    ctx.log("driver (race detector on):", p.stdout.strip().splitlines()[-1] if p.stdout.strip() else "", "races reported: %d" % races)
+    mism = validate_trace(ctx, "TraceConc.tla", "TraceConc.cfg", trace, shards=1, per_shard_workers=1,
+                          classify=lambda ev: "%s|%s" % (ev["call"].split("/")[0], ev["context"].split(":")[0]))
+    if races or p.returncode == 66:
+        ev = {"op": "race", "what": "the race detector reported %d data race(s) during concurrent calls" % races,
+              "report": (open(reports[0]).read()[:4000] if reports else p.stdout[-4000:])}
+        mism.append((ev, "DATA RACE"))
+    report_mismatches(ctx, mism)
+    ctx.notes["race_detector"] = {"enabled": True, "reports": races}
+    finish(ctx, "alphabet of 16 operations (Verify valid/invalid/panicking, ZIP-215, Sign pure/ph, VerifyBatch 70 valid / 130 mixed with fallback / 5 ph / refused, X25519 base/generic/low-order, GenerateKey, NewKeyFromSeed, "
+           "conversions): solo results, every ordered pair, seeded triples; TLC-enumerated interleavings of the chunk steps of 2-3 concurrent VerifyBatch calls (ConcCases.tla, 425 schedules, every 9th in quick) replayed "
+           "on the real code with a blocking entropy reader as gate at every chunk boundary; 16 free-running goroutines under the Go race detector; every result compared with the solo result and a digest of all "
+           "package-level variables compared with its initial value by TraceConc.tla", ASSUME_COMMON + ["the race detector observes only the accesses that were executed"])
